@@ -169,6 +169,8 @@ func (c *faCase) materialise() [][]byte {
 			out[i] = mkBox("moov", mMvhd(1000, 0, int64(len(trackIDs)+1)), traks, mkBox("mvex", trex))
 		case "styp":
 			out[i] = mStyp("msdh", 0, "msdh", "msix")
+		case "free":
+			out[i] = mkBox("free")
 		case "emsg":
 			out[i] = mEmsg(int64(b.Frag))
 		case "moof":
@@ -230,7 +232,7 @@ func (c *faCase) materialise() [][]byte {
 				}
 				refs[s] = sidxRefM{segEnd[s+1] - segStart[s+1], d}
 			}
-			out[i] = mSidx(1, 1000, 0, 0, refs)
+			out[i] = mSidx(1, 1000, 0, segStart[1]-pos[i+1], refs) // first_offset: from the end of the sidx to the first segment
 		case b.K == "sidx" && b.Level == "segment":
 			first, cnt := fragOfSeg(b.Seg)
 			refs := make([]sidxRefM, cnt)
@@ -371,7 +373,21 @@ func c12Replay(args []string) error {
 				if hasMfra && len(out) >= len(noMfra) {
 					out = out[:len(noMfra)]
 				}
-				if !bytes.Equal(out, noMfra) {
+				// a top-level free box is neither an init box nor part of a fragment: segment mode does not write it (see the
+				// C02 finding on File.Size); what must come out identically is everything else, in order
+				want := noMfra
+				for i, b := range c.File {
+					if b.K == "free" {
+						var w2 []byte
+						for j, bb := range boxes {
+							if j != i && !(hasMfra && j == len(boxes)-1) {
+								w2 = append(w2, bb...)
+							}
+						}
+						want = w2
+					}
+				}
+				if !bytes.Equal(out, want) {
 					rep.Violation(key+"/bytes", "segment-mode re-encoding does not emit init and fragments byte-identically and in order",
 						J{"case": cs, "in_len": len(noMfra), "out_len": len(out)})
 				}
